@@ -121,13 +121,14 @@ def _strategy(draw):
     # template, own size, own build-file entries), used in the same molecules as the first one
     isomer = None
     base = resdefs[0]
-    if base["vs"] is None and len(base["atoms"]) >= 3 and draw(st.integers(0, 2)) == 0:
+    if base["vs"] is None and len(base["atoms"]) >= 3 and draw(st.booleans()):
         n0 = len(base["atoms"])
         perm = list(draw(st.permutations(range(n0))))
         old_edges = {frozenset((a, b)) for _, a, b, _l in base["bonds"]}
         new_bonds = [[k, perm[a], perm[b], l] for k, a, b, l in base["bonds"]]
         if {frozenset((a, b)) for _, a, b, _l in new_bonds} != old_edges:
-            isomer = {"resname": "RI", "atoms": [dict(a) for a in base["atoms"]], "bonds": new_bonds,
+            # under a name of its own, or under the name of the first residue (same name, same atom names, other bonds)
+            isomer = {"resname": draw(st.sampled_from(["RI", base["resname"], base["resname"]])), "atoms": [dict(a) for a in base["atoms"]], "bonds": new_bonds,
                       "angles": [], "impropers": [], "vs": None}
             resdefs = resdefs + [isomer]
     same_mol = draw(st.booleans())
@@ -146,7 +147,9 @@ def _strategy(draw):
         moltypes.append({"name": "MB", "residues": [variant]})
     molecules = [[mt["name"], draw(st.integers(1, 2))] for mt in moltypes]
     build = {"templates": {}, "volumes": {}}
-    if variant is not None and variant["vs"] is None and resdefs[0]["vs"] is None and draw(st.booleans()):
+    same_name_isomer = isomer is not None and isomer["resname"] == base["resname"]
+    if variant is not None and variant["vs"] is None and resdefs[0]["vs"] is None and not same_name_isomer \
+            and draw(st.booleans()):
         # the two residues that share a name each get their own [ template ] section (same resname line, other
         # atoms): templates are told apart by their content, so both are used. The keys carry "/x" for the variant.
         for key, rd in ((resdefs[0]["resname"], resdefs[0]), (variant["resname"] + "/x", variant)):
@@ -158,6 +161,8 @@ def _strategy(draw):
     for rd in resdefs:
         if variant is not None and rd["resname"] == variant["resname"]:
             continue      # a resname-keyed [ volumes ] entry is ambiguous when two different residues share the name
+        if isomer is not None and isomer["resname"] == base["resname"] and rd["resname"] == base["resname"]:
+            continue      # the same holds for the isomer that carries the name of the first residue
         natoms = len(rd["atoms"]) + (1 if rd["vs"] else 0)
         if natoms >= 1 and rd["vs"] is None and draw(st.integers(0, 3)) == 0:
             pts = []
